@@ -34,6 +34,63 @@ example : ∃ ud u, Reach ud u ∧ u ≠ new ∧ u.b.len = 0 :=
   ⟨⟨fun _ => none, fun _ => 1⟩, shapeWithPlan ⟨fun _ => none, fun _ => 1⟩ (fun u => u) new,
     Reach.shape _ Reach.new, by decide, by decide⟩
 
+/-! ### "cleared ≡ fresh" over the FULL field list of `hb_buffer_t`
+
+  `Life.Field` has one constructor per field of the Rust struct; `Life.read` reads each off the model.  The three
+  generated facts below tie the list, and what `clear()` does to each member, to the working tree. -/
+
+/-- the model's field list is the field list of `pub struct hb_buffer_t` (parsed from src/hb/buffer.rs on every
+    run): a field added to — or removed from — the struct breaks this until the model follows -/
+theorem C05_gen_buffer_fields : Field.all.map Field.name = Gen.Lifecycle.bufferFields := by decide
+
+/-- `Field.all` lists every constructor (so quantifying over `Field` is quantifying over the struct's fields) -/
+theorem C05_fields_all (f : Field) : f ∈ Field.all := by cases f <;> decide
+
+/-- what the compiled `hb_buffer_t::clear()` leaves different from `hb_buffer_t::new()` on a buffer whose EVERY
+    field was made different (hook `clear_probe`, every field read back) is exactly the model's kept set:
+    flags, invisible, shaping_failed, max_len, max_ops.  A `clear()` that forgets a field adds it to the generated list. -/
+theorem C05_gen_clear_keeps :
+    (Field.all.filter Field.keptByClear).map Field.name = Gen.Lifecycle.clearKeeps := by decide
+
+/-- `invisible` — the one field the model does not carry — has no writer outside the hook modules (counted in
+    src/hb/*.rs on every run); with no public setter it is `None` in every buffer a caller can hold -/
+theorem C05_gen_invisible_never_written : Gen.Lifecycle.invisibleWriters = 0 := by decide
+
+/-- **clear() resets every field it is meant to reset, from ANY state** (not only reachable ones): for every field of
+    the struct, either it is one of the five kept fields or `clear` gives it the value of a fresh buffer — cursor,
+    lengths, both `Vec`s, both contexts and their lengths, serial, scratch flags, cluster level, segment properties,
+    not-found glyph, the four status booleans. -/
+theorem C05_clear_every_field (u : UBuf) (f : Field) :
+    f.keptByClear = true ∨ read (clear u) f = read new f := by
+  cases f <;> first | (left; rfl) | (right; rfl)
+
+theorem read_observe (x : UBuf) (f : Field) (h1 : f ≠ .flags) (h2 : f ≠ .shaping_failed) :
+    read (observe x) f = read x f := by
+  cases f <;> first | rfl | contradiction
+
+/-- **… and for every reachable state every field but `flags` / `shaping_failed` / `invisible` is fresh**: the
+    limits too, because every way out of `shape_with_plan` restores them (D9).  Quantified over the full field list. -/
+theorem C05_clear_fresh_every_field (ud : UData) (u : UBuf) (h : Reach ud u) (f : Field) :
+    f ∈ [Field.flags, Field.shaping_failed, Field.invisible] ∨ read (clear u) f = read new f := by
+  by_cases h1 : f = .flags
+  · subst h1; left; decide
+  by_cases h2 : f = .shaping_failed
+  · subst h2; left; decide
+  right
+  rw [← read_observe (clear u) f h1 h2, ← read_observe new f h1 h2, C05_clear_fresh ud u h]
+
+/-- a state in which every resettable field differs from a fresh buffer -/
+def dirtyBuf : Buf :=
+  { info := [{}], out := [{}], idx := 1, len := 1, outLen := 1, haveOutput := true, sepOut := true,
+    havePos := true, successful := false, level := 1, scratch := 1, serial := 1 }
+def dirty : UBuf :=
+  { b := dirtyBuf, dir := 1, script := some 1, lang := some [], pre := [1], post := [1], nfvs := some 1 }
+
+/-- non-vacuity: `clear` has something to do on every field it resets -/
+example : ∀ f : Field, f.keptByClear = false → f ≠ .invisible → read dirty f ≠ read new f := by
+  intro f hk hi
+  cases f <;> first | (exact absurd rfl hi) | (exact absurd hk (by decide)) | decide
+
 /-- **History independence.**  The same request (characters, clusters, contexts, direction, script, language,
     flags, cluster level, not-found glyph — what harness `fill` sets) shaped through a buffer recycled with
     `clear()` after ANY earlier use gives exactly the buffer that shaping it through a fresh one gives — for every
